@@ -94,6 +94,17 @@ class FlexibleTimeTreeModel(TimeTreeModel):
         tree_model = cls(id_, tree, taxa, None)
         dic[id_] = tree_model
         tree_model._internal_heights = process_object(data['internal_heights'], dic)
+        heights = tree_model._internal_heights
+        if heights.dtype != tree_model.sampling_times.dtype:
+            # the sampling times were created before the heights were known:
+            # read the dates again in the dtype of the heights, as the constructor
+            # does, together with what was derived from the rounded dates
+            tree_model.update_leaf_heights()
+            transform = getattr(heights, 'transform', None)
+            if hasattr(transform, 'update_bounds'):
+                transform.update_bounds()
+            if hasattr(heights, 'need_update'):
+                heights.need_update = True
 
         if data.get('keep_branch_lengths', False):
             tree_model._internal_heights.tensor = heights_from_branch_lengths(tree).to(
